@@ -1,5 +1,6 @@
 import Xsm.Proofs.Spelling
 import Xsm.Proofs.Targets
+import Xsm.Model.Plan
 /-!
 # C18 — config front end: spellings are equivalent, malformed input fails loudly
 
@@ -292,6 +293,39 @@ theorem target_spellings_agree_robust (m : Machine) (src p : Path) (wf : TargetW
     fun q d rel a b c e f => robust_of_direct _ _ _ _ (h3 q d rel a b c e f),
     fun cid a b c e => robust_of_direct _ _ _ _ (h4 cid a b c e)⟩
 
+/-- The default `target` of a history pseudo-state is resolved at a call site of its own
+(`_resolve_history_target`), FROM THE HISTORY NODE: when nothing is remembered for the parent, a default target
+string that the plain resolver maps to `p` from the history node's path makes the history node stand for exactly
+`[p]` - whatever the parent's `initial` says -/
+theorem history_default_enters_named_state (m : Machine) (hist : List (Path × List Path)) (h p : Path)
+    (hn pn : SNode) (t : String) (hh : m.root.at h = some hn) (hp : m.root.at h.dropLast = some pn)
+    (hrem : ((hist.find? (fun kv => kv.1 = h.dropLast)).map (·.2)).getD [] = [])
+    (ht : hn.d.historyTarget = some t) (hne : t ≠ "") (hres : resolveTarget m t h = some p) :
+    resolveHistoryTarget m hist h = [p] := by
+  unfold resolveHistoryTarget
+  simp only [hh, hp, hrem, ht, hne, hres, List.isEmpty_nil, if_true, if_false]
+
+/-- … so every spelling of the default target that names `p` (as `target_spellings_agree` lists them, read from the
+history node `h`: `#machine.path`, leading dot relative to the history node's PARENT, plain dotted path from an
+ancestor-or-self without shadowing, `#customId`) makes an unvisited history node stand for `[p]` -/
+theorem history_default_spellings_agree (m : Machine) (hist : List (Path × List Path)) (h p : Path)
+    (hn pn : SNode) (t : String) (wf : TargetWF m p) (hh : m.root.at h = some hn) (hp : m.root.at h.dropLast = some pn)
+    (hrem : ((hist.find? (fun kv => kv.1 = h.dropLast)).map (·.2)).getD [] = [])
+    (ht : hn.d.historyTarget = some t) (hne : t ≠ "")
+    (hspell : t = "#" ++ m.idOf p ∨
+      (∃ rel, rel ≠ [] ∧ p = parentOf h ++ rel ∧ t = "." ++ relStr rel) ∨
+      (∃ q d rel, h = q ++ d ∧ p = q ++ rel ∧ rel ≠ [] ∧ NoShadow m q d rel ∧ t = relStr rel) ∨
+      (∃ cid, '.' ∉ cid.toList ∧ cid.toList ≠ [] ∧ cid ≠ m.id ∧
+        m.customIds.find? (fun kv => decide (kv.1 = cid)) = some (cid, p) ∧ t = "#" ++ cid)) :
+    resolveHistoryTarget m hist h = [p] := by
+  obtain ⟨h1, h2, h3, h4⟩ := target_spellings_agree m h p wf
+  refine history_default_enters_named_state m hist h p hn pn t hh hp hrem ht hne ?_
+  rcases hspell with e | ⟨rel, a, b, e⟩ | ⟨q, d, rel, a, b, c, f, e⟩ | ⟨cid, a, b, c, f, e⟩
+  · rw [e]; exact h1
+  · rw [e]; exact h2 rel a b
+  · rw [e]; exact h3 q d rel a b c (by simp [hh]) f
+  · rw [e]; exact h4 cid a b c f
+
 /-- *sibling key*: from source `par ++ [s]`, the key `k ≠ s` of a sibling names that sibling, provided
 the source has no child keyed `k` itself -/
 theorem sibling_key_resolves (m : Machine) (par : Path) (s k : String) (wf : TargetWF m (par ++ [k]))
@@ -393,6 +427,21 @@ example : resolveTarget shadowMachine ("#" ++ shadowMachine.idOf ["b"]) ["a", "b
 /-- … and the sibling key `b` does name `b` when written on `b`'s sibling-free side: from the ROOT's
 child `b` itself upward nothing shadows (source `["b"]`, `q = []`, `d = ["b"]`) -/
 example : resolveTarget shadowMachine "b" ["b"] = some ["b"] := by decide
+
+/-- `m` ⊃ `start`, `m` ⊃ `on` ⊃ {`low` (initial), `high`, `hist` (history, default target `.high`)} -/
+def histDefaultMachine : Machine :=
+  { id := "m", maxIterations := 10, customIds := [],
+    root := .mk (compoundDef "start") [("start", .mk leafDef []),
+      ("on", .mk (compoundDef "low") [("low", .mk leafDef []), ("high", .mk leafDef []),
+        ("hist", .mk { leafDef with kind := .history, historyTarget := some ".high" } [])])] }
+
+/-- the hypotheses of `history_default_enters_named_state` are satisfiable, and its conclusion is not what the
+parent's `initial` (or a resolution from the PARENT, one level too high) would give: the unvisited history node
+stands for `on.high`; read from the parent `on`, `.high` names nothing -/
+theorem history_default_example :
+    resolveHistoryTarget histDefaultMachine [] ["on", "hist"] = [["on", "high"]] ∧
+    resolveTarget histDefaultMachine ".high" ["on", "hist"] = some ["on", "high"] ∧
+    resolveTarget histDefaultMachine ".high" ["on"] = none := by decide
 
 /-! ## 7. Malformed input: errors are library errors -/
 
